@@ -448,6 +448,11 @@ func (s *Server) handlePADT(clientMAC net.HardwareAddr, sessionID uint16) {
 		return
 	}
 
+	// Only the peer that owns the session may terminate it
+	if session.ClientMAC.String() != clientMAC.String() {
+		return
+	}
+
 	s.logger.Info("PPPoE session terminated by client",
 		zap.Uint16("session_id", sessionID),
 		zap.String("client_mac", clientMAC.String()),
@@ -475,6 +480,12 @@ func (s *Server) handleSession(clientMAC net.HardwareAddr, data []byte) {
 
 	session := s.sessions.GetSession(hdr.SessionID)
 	if session == nil {
+		return
+	}
+
+	// A session ID alone does not identify the sender: frames from any other
+	// MAC must not advance, authenticate or terminate somebody else's session
+	if session.ClientMAC.String() != clientMAC.String() {
 		return
 	}
 
